@@ -88,9 +88,27 @@ CrossUploadPartCopy(Src, Dst, c) ==
            sv == Versions(Src, c.sb, c.sk)[src.i] IN
        Ok(Tick([Dst EXCEPT !.ups[i].parts = SetPart(@, c.n, Flat(sv.parts))]))
 
+\* ------------------------------------------------ copy-source conditions
+\* A CopyObject / UploadPartCopy may carry x-amz-copy-source-if-* conditions: call field
+\*   sc = [im, inm, ums, ms], each "absent" | "pass" | "fail"
+\* (if-match, if-none-match, if-unmodified-since, if-modified-since; pass / fail = what the condition alone
+\* evaluates to against the source version; the harness concretises them from the source's ETag and
+\* Last-Modified).  The reference is the storage's own evaluation (metadatapart/object_read.go:
+\* evaluateCopySourceConditions), which follows S3: a failing if-match or if-none-match refuses the copy; a
+\* PASSING if-match makes if-unmodified-since irrelevant; otherwise a failing date condition refuses it.  They
+\* are evaluated after the source has been found and before anything else.  The middleware's cross-storage
+\* path re-implements the evaluation (conditional.go:copySourceConditionsSatisfied) - the property demands that
+\* it answers exactly like the same-storage copy, so the model has ONE rule for both paths.
+HasSC(c) == "sc" \in DOMAIN c
+SCFails(sc) == \/ sc.im = "fail" \/ sc.inm = "fail"
+               \/ (sc.ums = "fail" /\ sc.im # "pass")
+               \/ sc.ms = "fail"
+SCRefuses(Src, c) == IsCopy(c) /\ HasSC(c) /\ SrcLookup(Src, c.sb, c.sk, c.svid).err = "" /\ SCFails(c.sc)
+
 \* One call through the middleware on the COMBINED state St (bucket b of St = bucket b of Owner(b)).
 CApply(St, cf, c) ==
-  IF Cross(cf, c)
+  IF SCRefuses(St, c) THEN Err(St, "PreconditionFailed")
+  ELSE IF Cross(cf, c)
   THEN IF c.op = "CopyObject" THEN CrossCopyObject(St, St, c, St.dev) ELSE CrossUploadPartCopy(St, St, c)
   ELSE Apply(St, c)
 
